@@ -319,8 +319,27 @@ def splitLines (buf : Str) : List Str :=
   | some l => terminated ++ [l]
   | none => terminated
 
+/-- `unicode_bom::Bom::from(buf).len()`: `gix_ignore::parse::Lines::new` skips whatever this crate
+recognises as a byte-order mark — not only UTF-8's `EF BB BF` (the only one Git skips) but also
+UTF-16/32, UTF-1, UTF-EBCDIC, SCSU, BOCU-1, GB 18030 and the UTF-7 marks `+/v8 +/v9 +/v+ +/v/`. -/
+def bomLen (buf : Str) : Nat :=
+  let b := buf.map Char.toNat
+  if b.length < 2 then 0
+  else if b.take 4 = [0, 0, 0xfe, 0xff] then 4
+  else if b.take 3 = [0x0e, 0xfe, 0xff] then 3
+  else if b.take 3 = [0x2b, 0x2f, 0x76] ∧ (b.drop 3).head?.any (fun x => x = 0x38 || x = 0x39 || x = 0x2b || x = 0x2f) then 4
+  else if b.take 4 = [0x84, 0x31, 0x95, 0x33] then 4
+  else if b.take 4 = [0xdd, 0x73, 0x66, 0x73] then 4
+  else if b.take 3 = [0xef, 0xbb, 0xbf] then 3
+  else if b.take 3 = [0xf7, 0x64, 0x4c] then 3
+  else if b.take 3 = [0xfb, 0xee, 0x28] then 3
+  else if b.take 2 = [0xfe, 0xff] then 2
+  else if b.take 4 = [0xff, 0xfe, 0, 0] then 4
+  else if b.take 2 = [0xff, 0xfe] then 2
+  else 0
+
 /-- all patterns of an ignore file, in file order -/
-def parseFile (buf : Str) : List Pattern := (splitLines buf).filterMap parseLine
+def parseFile (buf : Str) : List Pattern := (splitLines (buf.drop (bomLen buf))).filterMap parseLine
 
 /-! ### matching one pattern -/
 
